@@ -96,6 +96,33 @@ def scripted_stage(chk, tier, seed):
     chk.ev.cov["scripted_parallel_runs"] = n
 
 
+def single_run_deadline_stage(chk, tier, seed):
+    """one run of the plain solver with an unlimited iteration budget, a short Duration and a caller context WITHOUT deadline:
+    the channel has to be closed when the duration is over (the parallel solver puts its deadline on the parent context, which
+    hides what a single run does with its own)"""
+    import os
+    import random
+    import common as C
+    rng = random.Random(seed * 31 + 1515)
+    n = 4 if tier == "quick" else 40
+    blocks = [("d%d" % i, ["deadline duration_ms=%d grace_ms=2500" % rng.choice([0, 50, 150, 300])]) for i in range(n)]
+    cf = os.path.join(C.BUILD, "c15_sdeadline_%s.case" % tier)
+    C.write_cases(cf, blocks)
+    rc, out, err = C.run([C.HARNESS, "sdeadline", cf], timeout=600, env=C.GOENV)
+    os.remove(cf)
+    g = C.group_lines(out)
+    nbad = 0
+    for cid, lines in blocks:
+        got = g.get(cid, ["no output"])
+        if got != ["closed within_grace true"]:
+            nbad += 1
+            chk.violation({"kind": "script", "what": "single solver run: %s (%s; unlimited iterations, caller context without deadline)" % (got[0], lines[0]),
+                           "case": lines, "command": "nrharness sdeadline"})
+    chk.ob("single solver run: the channel is closed when SolveOptions.Duration is over, whatever the caller's context (%d runs)" % n,
+           rc == 0 and nbad == 0, err[-200:])
+    chk.ev.cov["single_run_deadline_runs"] = n
+
+
 def run(tier, seed, replay=None):
     chk = FW.Check(PID, tier, seed)
     if not chk.builds(model=True, harness=True, skeletons=True):
@@ -104,6 +131,7 @@ def run(tier, seed, replay=None):
     chk.proofs("Grants")     # granted iterations and the iteration count do not depend on the schedule (justifies the canonical schedule of ploop)
     chk.oblig("O_C15")
     scripted_stage(chk, tier, seed)
+    single_run_deadline_stage(chk, tier, seed)
     n = 60 if tier == "quick" else 800
     cases = S.make_solve_cases(seed * 31 + 15, n, settings)
     runs, rc, err = S.run_solve(cases, "c15_" + tier, timeout=3000)
